@@ -24,3 +24,4 @@ pub mod c17;
 pub mod c18;
 pub mod c19;
 pub mod c20;
+pub mod dec96;
